@@ -365,7 +365,8 @@ class Component( ComponentLevel7 ):
         assert blk in top._dsl.all_upblk_calls
         to_save = set()
         for x in calls:
-          if x in removed_connectables:
+          # a call set may hold a CL/FL interface besides method ports
+          if x in removed_connectables or x in removed_interfaces:
             to_save.add( x )
             saved_upblk_calls.append( (blk, repr(x)) )
         parent._dsl.upblk_calls[blk] -= to_save
@@ -390,7 +391,7 @@ class Component( ComponentLevel7 ):
       for func, calls in parent._dsl.func_calls.items():
         to_save = set()
         for x in calls:
-          if x in removed_connectables:
+          if x in removed_connectables or x in removed_interfaces:
             to_save.add( x )
             saved_func_calls.append( (func, repr(x)) )
         parent._dsl.func_calls[func] -= to_save
